@@ -150,6 +150,10 @@ func runC15(c *Ctx) {
 	checkFloatDigits(c, "R15i")
 	c.Rule("R15j", ruleTextIntParserGuard, 1)
 	checkIntParserGuard(c, "R15j")
+	c.Rule("R15q", ruleTextFKSides, 2)
+	checkFKSides(c, "R15q")
+	c.Rule("R15r", ruleTextArrayKept, 3)
+	checkArrayKept(c, "R15r")
 	c.Rule("R15p", ruleTextNoQuotedExprText, 10)
 	checkNoQuotedExprText(c, "R15p")
 	c.Rule("R15o", ruleTextValueWritten, 1)
